@@ -1004,6 +1004,11 @@ func (eng *Engine) replay(o *Obligation) (res replayResult) {
 		res.Note += " | replay test did not run: " + firstLines(out, 6)
 		return res
 	}
+	if len(lb.approx) > 0 {
+		// the inputs handed to the real code are not the model's: nothing can be concluded
+		res.Note += " | replay inconclusive (inputs approximated)"
+		return res
+	}
 	switch {
 	case strings.Contains(out, "VERIF-REPLAY panic:"):
 		// a panic refutes every no-panic obligation and every postcondition of a nopanic function
@@ -1117,4 +1122,66 @@ func replayFile(path, repo string) int {
 		return 1
 	}
 	return 0
+}
+
+// ---------------------------------------------------------------------------
+// bounded stand-ins: exhaustive enumerators written in the contract file, run natively
+
+type boundedResult struct {
+	Name     string   `json:"name"`
+	Props    []string `json:"-"`
+	Cases    int      `json:"cases"`
+	Failures []string `json:"failures,omitempty"`
+	Error    string   `json:"error,omitempty"`
+	Desc     string   `json:"bound"`
+	Seconds  float64  `json:"seconds"`
+}
+
+func (eng *Engine) runBounded(lt lemmaTarget) boundedResult {
+	c := lt.c
+	name := strings.Fields(c.Ref)[0]
+	res := boundedResult{Name: lt.pkg.Pkg.Name() + "." + name, Props: c.Props, Desc: strings.TrimSpace(strings.TrimPrefix(c.Ref, name))}
+	start := time.Now()
+	fn := lt.pkg.Func(name)
+	if fn == nil {
+		res.Error = "enumerator " + name + " not found"
+		return res
+	}
+	test := fmt.Sprintf(`//go:build verif
+
+package %s
+
+import (
+	"fmt"
+	"testing"
+)
+
+func TestVerifReplay(t *testing.T) {
+	n, fails := %s()
+	fmt.Printf("VERIF-BOUNDED cases=%%d failures=%%d\n", n, len(fails))
+	for _, f := range fails {
+		fmt.Println("VERIF-BOUNDED-FAIL", f)
+	}
+}
+`, lt.pkg.Pkg.Name(), name)
+	dir := filepath.Dir(eng.fset.Position(fn.Pos()).Filename)
+	out, err := eng.runReplayTest(dir, test)
+	res.Seconds = time.Since(start).Seconds()
+	found := false
+	for _, ln := range strings.Split(out, "\n") {
+		if strings.HasPrefix(ln, "VERIF-BOUNDED cases=") {
+			fmt.Sscanf(ln, "VERIF-BOUNDED cases=%d", &res.Cases)
+			found = true
+		}
+		if strings.HasPrefix(ln, "VERIF-BOUNDED-FAIL ") {
+			res.Failures = append(res.Failures, strings.TrimPrefix(ln, "VERIF-BOUNDED-FAIL "))
+		}
+	}
+	if !found {
+		res.Error = "enumerator did not run: " + firstLines(out, 8)
+		if err != nil {
+			res.Error += " (" + err.Error() + ")"
+		}
+	}
+	return res
 }
